@@ -143,7 +143,7 @@ def replay_factory(lattice_name, n, dim, wrap, onedim_sym=False):
                         q = P[i] - shift
                         if np.linalg.norm(q - np.atleast_1d(ctr)) <= rad:
                             want.append((i, tuple(np.round(q, 9))))
-                got = [(int(i), tuple(np.round(np.atleast_1d(q), 9))) for i, q in zip(loc.indices, np.asarray(loc.points, float).reshape(len(loc.indices), -1))]
+                got = [(int(i), tuple(np.round(np.atleast_1d(q), 9))) for i, q in zip(loc.indices, np.asarray(loc.points, float).reshape(len(loc.indices), P.shape[1]))]
                 info.update(returned=sorted(got)[:12], expected=sorted(want)[:12])
                 bad = sorted(got) != sorted(want) or not np.allclose(loc.weights, w[np.asarray(loc.indices, int)] if len(got) else [])
                 return bad, info
@@ -374,8 +374,76 @@ def job_reciprocal_ground(ctx: Ctx):
                                      replay=(lambda m: (True, {})), **({} if ok else dict(model={})))
 
 
+def job_range_1d(ctx: Ctx, n, wrap, sign=1):
+    """range lemma for a one-dimensional grid with a fully symbolic lattice vector a != 0 (either sign), unbounded radius and translations."""
+    import ast
+    pg, bg, rec = install(EmptyTree)
+    e = ctx.engine
+    ctx.encoded(pg.PeriodicGrid.__init__, pg.PeriodicGrid.get_localgrid)
+    a = real("a")
+    e.assume(a > 0 if sign > 0 else a < 0)
+    pts = sym_points("p", n, 0)
+    w = arr([real(f"w{i}") for i in range(n)])
+    c0, r = real("c0"), real("r")
+    e.assume(r >= 0)
+    nk = integer("n0")
+    key = "periodic:range:1d-symbolic-vector"
+    ctx.bounds.update(dict(lattice="1-D, symbolic vector a != 0", points=n, wrap=wrap, radius="any r >= 0", translations="unbounded integers"))
+    R = replay_factory("sym", n, 0, wrap, onedim_sym=True)
+    recorded = []
+
+    def rec_range(lo, hi):
+        recorded.append((lo, hi))
+        raise _Stop()
+
+    class StripAstype(ast.NodeTransformer):
+        def visit_Call(self, node):
+            self.generic_visit(node)
+            if isinstance(node.func, ast.Attribute) and node.func.attr == "astype" and len(node.args) == 1 and isinstance(node.args[0], ast.Name) and node.args[0].id == "int":
+                return node.func.value
+            return node
+    glg = harness.recompile(pg.PeriodicGrid.get_localgrid, StripAstype(), {"range": rec_range})
+
+    def body():
+        import warnings
+        warnings.simplefilter("ignore")
+        g = pg.PeriodicGrid(pts, w, arr([a]), wrap=wrap)
+        del recorded[:]
+        try:
+            glg(g, c0, r)
+        except _Stop:
+            pass
+        return g.points, list(recorded)
+    for p in e.run(body):
+        ctx.paths += 1
+        if p.exc is not None:
+            ctx.fail("box computation raises", f"{type(p.exc).__name__}: {str(p.exc)[:160]}", key=key + ":raises", replay=R, model=ctx.model_for(p.pc) or {})
+            continue
+        ctx.twin(p.pc)
+        P, ranges = p.result
+        if len(ranges) != 1:
+            ctx.fail("one integer range for the lattice vector", detail=str(len(ranges)), key=key, replay=R, model={})
+            continue
+        lo, hi = ranges[0]
+        xx, yy = real("xx"), real("yy")
+        ctx.holds("for reals x, y >= 0:  x^2 <= y^2  =>  -y <= x <= y", (~((xx * xx <= yy * yy) & (yy >= 0))) | ((xx <= yy) & (xx >= -yy)), (), key=key + ":lemma")
+        for i in range(n):
+            d = P[i] - nk * a - c0
+            inside = d * d <= r * r
+            lin = (d <= r) & (d >= -r)                       # instance x := d, y := r of the lemma
+            # in units of the (signed) lattice vector:  d/a = p/a - n - c/a  and  |d/a| <= r/|a|
+            s_ = K(1) if sign > 0 else K(-1)
+            unit = ((d / a) * s_ <= r / (a * s_)) & ((d / a) * s_ >= -r / (a * s_))
+            ctx.holds(f"point {i}: -r <= d <= r  =>  |d/a| <= r/|a|", (~lin) | unit, p.pc, key=key + ":lemma")
+            ctx.holds(f"point {i}: |p - n a - c| <= r  =>  ilc_min <= n <= ilc_max, for every integer n and every a != 0", (~inside) | ((nk >= lo) & (nk + 1 <= hi)),
+                      p.pc, assume=[(~inside) | lin, (~lin) | unit], replay=R, key=key)
+
+
 def jobs(tier):
     js = [Job("reciprocal/ground", job_reciprocal_ground)]
+    for wrap in (False, True):
+        for sign in (1, -1):
+            js.append(Job(f"range/1d-symbolic/wrap={wrap}/a{'>' if sign > 0 else '<'}0", job_range_1d, 2, wrap, sign))
     fam = ["2d-orthogonal", "2d-skewed", "2d-negative", "2d-one-vector", "3d-orthogonal", "3d-one-vector"] if tier == "quick" else list(LATTICES)
     for name in fam:
         for wrap in ((False,) if tier == "quick" else (False, True)):
